@@ -375,6 +375,14 @@ func GenFull(t *rapid.T, o Opts) *hx.Schema {
 		for j := 0; j < rapid.IntRange(0, 2).Draw(t, d.Name+"nargs"); j++ {
 			a := &hx.Arg{Name: []string{"p", "q"}[j]}
 			a.Type = g.wrap(rapid.SampledFrom(g.inputBases()).Draw(t, d.Name+a.Name+"base"), d.Name+a.Name)
+			if len(g.inputs) > 0 && rapid.IntRange(0, 3).Draw(t, d.Name+a.Name+"inputObj") == 0 {
+				// input objects (alone and in lists) are the values with structure: coercion fills
+				// their defaults in and checks their members
+				a.Type = hx.Named(rapid.SampledFrom(g.inputs).Draw(t, d.Name+a.Name+"inputBase"))
+				for k := rapid.IntRange(0, 2).Draw(t, d.Name+a.Name+"inputLists"); k > 0; k-- {
+					a.Type = hx.ListOf(a.Type)
+				}
+			}
 			if rapid.Bool().Draw(t, d.Name+a.Name+"hasdef") {
 				v := g.Literal(a.Type, d.Name+a.Name+"def", 0)
 				if !v.IsNil() {
